@@ -113,12 +113,12 @@ PROPS = {
                         'parallel timing', 'the Windows branch of Subprocess.cpp (not compiled here)'],
     },
     'C09': {
-        'units': ['signature', 'engine', 'extcmd'],
+        'units': ['signature', 'engine', 'extcmd', 'sigsplit', 'sigsplit_shell'],
         'design_ref': 'DESIGN.md section 4, C09',
         'claim': 'ShellCommand::getSignature feeds every argument, both halves of every environment entry, every deps path and the three scalar '
                  'settings exactly once (or only the explicit signature when one is given), never hands out the null signature, caches what it '
                  'returns, and no value reaches combine(bool) through a narrowing conversion; the engine re-runs on signature inequality before '
-                 'validity and offers a prior value only for the same signature',
+                 'validity and offers a prior value only for the same signature; BOUNDED (not counted, relational): two definitions that differ only in where a list ends (inputs/outputs, arguments/deps paths) feed different sequences into the hash chain',
         'not_decided': ['collision freedom of the 64-bit hash (hash_combine is uninterpreted)', 'list boundaries in the chain: inputs/outputs/args/env/deps are '
                         'chained without delimiters (candidate finding F9, ExternalCommand::getSignature is not under contract)', 'the null-build claim end to end'],
     },
